@@ -4,6 +4,7 @@
 -/
 import Phil
 import Phil.Heap
+import Phil.HeapFetch2
 import Phil.IndexPaths
 import Phil.CmdLineAuto
 open Phil
@@ -76,6 +77,23 @@ def heapOfJ (g : List J) : Option Heap.Heap :=
 
 def graphJ (h : Heap.Heap) : J :=
   .arr ((Heap.graph h).map fun g =>
+    .arr [.bool g.isScope, J.text g.name, J.optNat g.parent, .arr (g.kids.map fun k => J.num (Int.ofNat k))])
+
+/-- the identity graph after a heap-level fetch, as the harness numbers it: the `n0` old objects keep their ids,
+    the NEW objects reachable from the result `r` (through `objects` and `primary_parent_scope`, in the order
+    `copy.deepcopy` would meet them) are numbered `n0, n0+1, …`; unreachable new cells (temporaries) are dropped -/
+def canonFetchGraph (n0 : Nat) (h : Heap.Heap) (r : Nat) : Option (List Heap.GNode × Nat) :=
+  match Heap.visit (Heap.visitFuel h) h [r] [] with
+  | none => none
+  | some comp =>
+    let news : List Nat := (comp.map (·.1)).filter (fun i => decide (n0 ≤ i))
+    let ρ : Nat → Nat := fun i => if i < n0 then i else n0 + news.idxOf i
+    let g := Heap.graph h
+    some ((g.take n0) ++ news.filterMap (fun i => g[i]?.map (fun (c : Heap.GNode) =>
+      { c with parent := c.parent.map ρ, kids := c.kids.map ρ })), ρ r)
+
+def gnodesJ (g : List Heap.GNode) : J :=
+  .arr (g.map fun g =>
     .arr [.bool g.isScope, J.text g.name, J.optNat g.parent, .arr (g.kids.map fun k => J.num (Int.ofNat k))])
 
 /-- the path index on the wire: `[path, kind, count, positions]` per key, keys in code-point order;
@@ -260,6 +278,24 @@ def handle (req : J) : J :=
        match r with
        | some (h', y) => okJ (.arr [graphJ h', .num (Int.ofNat y)])
        | none => .arr [.str "unsupported", .str "heap_op"])
+  | .arr [.str "heap_fetch", mt, srcs, ej, fj] =>
+    (match mt.getStr, srcs.getArr, envsOfJ ej fj with
+     | some mt, some srcs, some envs =>
+       (match (parseObjs mt).map (preResolve (fun _ => none) false), parseSources (srcs.filterMap J.getStr) with
+        | .error e, _ => .arr [.str "parse-failed", e.toJ]
+        | _, .error e => .arr [.str "parse-failed", e.toJ]
+        | .ok m, .ok ss =>
+          let hr := Heap.fetchRootH envs m ss
+          (match hr.2 with
+           | .error e => e.toJ
+           | .ok (s', r) =>
+             (match canonFetchGraph hr.1.length s'.heap r with
+              | none => .arr [.str "unsupported", .str "heap_fetch graph"]
+              | some (g, r') =>
+                let marks := ((List.range hr.1.length).filter (fun i => s'.tmp.contains i)).map (fun (n : Nat) => J.num (Int.ofNat n))
+                let newMarks := (s'.tmp.filter (fun i => decide (hr.1.length ≤ i))).length
+                okJ (.arr [gnodesJ g, .num (Int.ofNat r'), .arr marks, .num (Int.ofNat newMarks), .num (Int.ofNat hr.1.length)]))))
+     | _, _, _ => .str "bad-request")
   | .arr [.str "isspace_table"] =>
     okJ (.arr (((List.range 0x110000).filter (fun (n : Nat) => (decide (n < 0xD800) || decide (n > 0xDFFF)) && isSpace (Char.ofNat n))).map (fun (n : Nat) => J.num (Int.ofNat n))))
   | _ => .str "bad-op"
